@@ -617,6 +617,137 @@ def inline_local_helpers(unit):
     return view
 
 
+class _SubstAll(ast.NodeTransformer):
+    """parameters -> argument expressions (loads), helper locals -> prefixed names (loads and stores)"""
+    def __init__(self, mapping, rename):
+        self.mapping, self.rename = mapping, rename
+
+    def visit_Name(self, node):
+        import copy as _c
+        if isinstance(node.ctx, ast.Load) and node.id in self.mapping:
+            return ast.copy_location(_c.deepcopy(self.mapping[node.id]), node)
+        if node.id in self.rename:
+            return ast.copy_location(ast.Name(id=self.rename[node.id], ctx=node.ctx), node)
+        return node
+
+    def visit_Lambda(self, node):
+        return node
+
+    def visit_FunctionDef(self, node):
+        return node
+
+
+_class_views = {}
+
+
+def inline_self_helpers(idx, ci):
+    """A view of class `ci` in which statement-level calls `self._helper(a, b)` of its own plain private methods are replaced by
+    the helper's body (arguments substituted for parameters, the helper's locals renamed), and helpers all of whose uses were
+    inlined are dropped from the method table.  Rules that describe what a method does then see the same thing whether or not a
+    block shared by several methods was folded into a helper method.  Left alone: decorated methods, helpers with defaults /
+    *args / **kw, helpers that return, yield or assign to a parameter, helpers referenced in any other way than such a call."""
+    import copy as _c
+    key = (id(idx), ci.qual)
+    if key in _class_views:
+        return _class_views[key]
+    helpers = {}
+    for name, u in ci.methods.items():
+        n = u.node
+        if not isinstance(n, ast.FunctionDef) or n.decorator_list or not name.startswith('_') or name.startswith('__'):
+            continue
+        a = n.args
+        if a.vararg or a.kwarg or a.kwonlyargs or a.defaults or getattr(a, 'posonlyargs', []) or not a.args or a.args[0].arg != 'self':
+            continue
+        params = [x.arg for x in a.args[1:]]
+        body = [b for b in n.body if not (isinstance(b, ast.Expr) and isinstance(b.value, ast.Constant))]
+        bad = not body
+        for b in body:
+            for x in ast.walk(b):
+                if isinstance(x, (ast.Yield, ast.YieldFrom, ast.Await, ast.Nonlocal, ast.Global, ast.Return, ast.FunctionDef, ast.Lambda)):
+                    bad = True
+                if isinstance(x, ast.Name) and isinstance(x.ctx, ast.Store) and x.id in params:
+                    bad = True
+                if isinstance(x, ast.Attribute) and dotted(x) == 'self.' + name:
+                    bad = True      # recursive
+        if not bad:
+            helpers[name] = (params, body)
+    # every reference to the helper anywhere in the class is a statement-level call with matching arity
+    for name in list(helpers):
+        params, _ = helpers[name]
+        for u in idx.all_units():
+            if u.owner_cls is not ci and not (u.cls is ci):
+                continue
+            stmt_calls = set(id(st.value.func) for st in ast.walk(u.node) if isinstance(st, ast.Expr) and isinstance(st.value, ast.Call)
+                             and dotted(st.value.func) == 'self.' + name and len(st.value.args) == len(params) and not st.value.keywords
+                             and not any(isinstance(x, ast.Starred) for x in st.value.args))
+            for x in ast.walk(u.node):
+                if isinstance(x, ast.Attribute) and dotted(x) == 'self.' + name and id(x) not in stmt_calls:
+                    helpers.pop(name, None)
+    # a helper must not be referenced from outside the class either (other.<name>): be conservative on the attribute name
+    for name in list(helpers):
+        for u in idx.all_units():
+            if u.owner_cls is ci or u.cls is ci:
+                continue
+            if any(isinstance(x, ast.Attribute) and x.attr == name for x in ast.walk(u.node)):
+                helpers.pop(name, None)
+                break
+    if not helpers:
+        _class_views[key] = ci
+        return ci
+    used = set()
+
+    def expand(node, depth):
+        class _Inline(ast.NodeTransformer):
+            def visit_Expr(self, st):
+                c = st.value
+                if isinstance(c, ast.Call) and (dotted(c.func) or '').startswith('self.') and (dotted(c.func) or '')[5:] in helpers and depth < 4:
+                    hname = dotted(c.func)[5:]
+                    params, body = helpers[hname]
+                    used.add(hname)
+                    locs = set(x.id for b in body for x in ast.walk(b) if isinstance(x, ast.Name) and isinstance(x.ctx, ast.Store))
+                    sub = _SubstAll(dict(zip(params, c.args)), dict((l, '%s__%s' % (hname.strip('_'), l)) for l in locs))
+                    out = []
+                    for b in body:
+                        nb = sub.visit(_c.deepcopy(b))
+                        for x in ast.walk(nb):
+                            if hasattr(x, 'lineno'):
+                                x.lineno = st.lineno
+                                x.end_lineno = getattr(st, 'end_lineno', st.lineno)
+                        nb = expand(nb, depth + 1)
+                        out.extend(nb if isinstance(nb, list) else [nb])
+                    return out
+                return st
+
+            def visit_FunctionDef(self, fn):
+                if fn is node:
+                    self.generic_visit(fn)
+                return fn
+
+            def visit_Lambda(self, fn):
+                return fn
+        return _Inline().visit(node)
+    view = _c.copy(ci)
+    view.methods = {}
+    for name, u in ci.methods.items():
+        if name in helpers:
+            continue
+        if not isinstance(u.node, (ast.FunctionDef, ast.AsyncFunctionDef)) or not any(
+                isinstance(x, ast.Attribute) and (dotted(x) or '')[5:] in helpers and (dotted(x) or '').startswith('self.') for x in ast.walk(u.node)):
+            view.methods[name] = u
+            continue
+        root = _c.deepcopy(u.node)
+        newn = expand(root, 0)
+        ast.fix_missing_locations(newn)
+        vu = _c.copy(u)
+        vu.node = newn
+        view.methods[name] = vu
+    for name in helpers:
+        if name not in used:
+            view.methods[name] = ci.methods[name]
+    _class_views[key] = view
+    return view
+
+
 def required_await(run, rid, unit, what_pred, before_pred, what, before, slot):
     """must-precede: a `yield <expr matching what_pred>` exists in unit and dominates every node matching before_pred"""
     g = cfg_of(unit)
